@@ -21,6 +21,12 @@ theorem c08_roundNE32_spec (neg : Bool) (num den : Nat) (hden : 0 < den) :
     (Overflows32 num den → roundNE32 neg num den = none) :=
   roundNE32_correct neg num den hden
 
+example : roundNE64 false 1 10 = some 0x3fb999999999999a := by decide +kernel      -- 0.1
+example : roundNE64 true 5 (10 ^ 324) = some 0x8000000000000001 := by decide +kernel  -- -5e-324
+example : roundNE64 false (2 ^ 1024 - 2 ^ 970) 1 = none ∧ roundNE64 false (2 ^ 1024 - 2 ^ 970 - 1) 1 = some 0x7fefffffffffffff := by
+  decide +kernel
+example : roundNE32 false 1 10 = some 0x3dcccccd := by decide +kernel
+
 /-- every one of the 309 `POW10` entries is the literal `1e<index>` (re-extracted each run) -/
 theorem c08_pow10_table : Gen.pow10Exps.length = 309 ∧ Gen.pow10Declared = 309 ∧
     ∀ i, i < 309 → Gen.pow10Exps[i]? = some i :=
@@ -111,6 +117,9 @@ theorem c08_f32_once_fails_on_large_int :
     (floatOfLiteral l).map F64.toF32 = some 0x5d800000 := by decide +kernel
 
 example : partsOfLiteral exLit = .parts false 12345678 6 := by decide +kernel
+/-- `-9007199254740991` (`2^53 − 1`, `I64` path) -/
+example : f32OfLiteral ⟨true, [0x39, 0x30, 0x30, 0x37, 0x31, 0x39, 0x39, 0x32, 0x35, 0x34, 0x37, 0x34, 0x30, 0x39, 0x39, 0x31], [], false, []⟩
+    = some 0xda000000 := by decide +kernel
 example : f32OfLiteral exLit = (floatOfLiteral exLit).map F64.toF32 :=
   c08_f32_once exLit (by intro n h; rw [show partsOfLiteral exLit = .parts false 12345678 6 by decide +kernel] at h; cases h)
     (by intro n h; rw [show partsOfLiteral exLit = .parts false 12345678 6 by decide +kernel] at h; cases h)
@@ -148,15 +157,22 @@ theorem c08_zero_significand (positive : Bool) (e : Int) :
     f64FromParts positive 0 e = some (F64.zero (!positive)) :=
   f64FromParts_zero positive e
 
-/-- **C08, underflow (partial).** For `exponent < -616` every `u64` significand gives `±0`: after two
-    `f /= 1e308` rounds the accumulator is exactly zero and the loop stops.
-    Missing: the band between `10^-598` and the subnormal limit `2^-1075`, where "below half the least
-    subnormal ⇒ ±0" needs the error analysis of the `1e308` stepping; the exponent-overflow path
-    (`1e-99999999999`) returns `±0` by construction (`parseExponentOverflow`). -/
-theorem c08_underflow_zero_partial (positive : Bool) (s : Nat) (e : Int) (hs : s < 2 ^ 64)
-    (he : e < -616) : f64FromParts positive s e = some (F64.zero (!positive)) :=
-  f64FromParts_far_underflow positive s e hs he
+/-- **C08, underflow (partial: stated at `f64_from_parts`).** An exact value `significand · 10^exponent`
+    of at most `2^-1076` — a quarter of the least subnormal `2^-1074`, i.e. safely "below the subnormal
+    range" — is deserialised to `±0`, for every `u64` significand and every exponent: two `f /= 1e308`
+    rounds flush everything for `exponent < -616`, and for `-616 ≤ exponent ≤ -309` the rounding errors of
+    `significand as f64`, `/ 1e308` (possibly subnormal) and the table division keep the last quotient
+    at or below half the least subnormal. (Between `2^-1076` and `2^-1075` the result may legitimately be
+    `±0` or the least subnormal: 1 ulp.)
+    Missing: the lift to literals whose digits beyond `u64` are dropped (dropping only lowers the
+    value); the exponent-overflow path (`1e-99999999999`) returns `±0` by construction. -/
+theorem c08_underflow_zero_partial (positive : Bool) (s : Nat) (e : Int) (hs : s < 2 ^ 64) (he : e < 0)
+    (hx : s * 2 ^ 1076 ≤ 10 ^ e.natAbs) : f64FromParts positive s e = some (F64.zero (!positive)) :=
+  f64FromParts_underflow positive s e hs he hx
 
+/-- `6e-325 < 2^-1076 ≈ 6.18e-325` -/
+example : 6 * 2 ^ 1076 ≤ 10 ^ (-325 : Int).natAbs := by decide +kernel
+example : f64FromParts true 6 (-325) = some 0 := by decide +kernel
 example : f64FromParts false 18446744073709551615 (-617) = some 0x8000000000000000 := by decide +kernel
 example (z p : Bool) : parseExponentOverflow p z false = some (F64.zero (!p)) := by
   cases z <;> cases p <;> rfl
